@@ -1,6 +1,6 @@
 """Sidecar contracts for tefra/xsdata, keyed by module:QualName (see DESIGN.md §2.1)."""
 
-MODULES = ["c06_dates", "c03_namespaces", "c05_converters", "c10_strictness", "c09_infoset", "c06_datatypes"]
+MODULES = ["c06_dates", "c03_namespaces", "c05_converters", "c10_strictness", "c09_infoset", "c06_datatypes", "c05_factory", "c14_history"]
 
 # helpers executed by inlining their real source instead of through a contract (listed in evidence)
 INLINE = ["calendar:isleap"]
@@ -8,6 +8,15 @@ INLINE = ["calendar:isleap"]
 NODES = "xsdata.formats.dataclass.parsers.nodes"
 
 PROPERTIES = {
+    "C14": {
+        "min_obligations": 30,
+        "canaries": [
+            {"name": "match_namespace-memo-ignores-key", "function": "xsdata.formats.dataclass.models.elements:XmlVar.match_namespace#warm",
+             "module": "xsdata.formats.dataclass.models.elements", "target": "XmlVar.match_namespace",
+             "old": "self.namespace_matches[qname] = matches", "new": "self.namespace_matches[qname[:1]] = matches"},
+        ],
+        "decided": [], "not_decided": [], "bounded": [], "trusted_base": [], "assumptions": [],
+    },
     "C09": {
         "min_obligations": 100,
         "canaries": [
